@@ -12,14 +12,14 @@ import (
 	"strings"
 	"testing"
 
-	"github.com/bluenviron/mediamtx/internal/ntpestimator"
-	"github.com/bluenviron/mediamtx/internal/playback"
-	"github.com/bluenviron/mediamtx/internal/protocols/hls"
-	"github.com/bluenviron/mediamtx/internal/protocols/mpegts"
-	"github.com/bluenviron/mediamtx/internal/protocols/rtmp"
-	"github.com/bluenviron/mediamtx/internal/protocols/webrtc"
-	"github.com/bluenviron/mediamtx/internal/recorder"
-	"github.com/bluenviron/mediamtx/internal/stream"
+	_ "github.com/bluenviron/mediamtx/internal/ntpestimator"
+	_ "github.com/bluenviron/mediamtx/internal/playback"
+	_ "github.com/bluenviron/mediamtx/internal/protocols/hls"
+	_ "github.com/bluenviron/mediamtx/internal/protocols/mpegts"
+	_ "github.com/bluenviron/mediamtx/internal/protocols/rtmp"
+	_ "github.com/bluenviron/mediamtx/internal/protocols/webrtc"
+	_ "github.com/bluenviron/mediamtx/internal/recorder"
+	_ "github.com/bluenviron/mediamtx/internal/stream"
 	"github.com/bluenviron/mediamtx/internal/verifutil"
 )
 
@@ -38,26 +38,40 @@ type c24Copy2 struct {
 
 // internal/staticsources/rpicamera.multiplyAndDivide is only compiled on linux/arm(64): it is covered
 // by the translator + proof, not by this harness.
-var c24Copies3 = []c24Copy3{
-	{"ntpestimator_multiplyAndDivide", ntpestimator.VerifC24MultiplyAndDivide},
-	{"protocols_hls_multiplyAndDivide", hls.VerifC24MultiplyAndDivide},
-	{"protocols_mpegts_multiplyAndDivide", mpegts.VerifC24MultiplyAndDivide},
-	{"protocols_rtmp_multiplyAndDivide", rtmp.VerifC24MultiplyAndDivide},
-	{"protocols_rtmp_multiplyAndDivide2", rtmp.VerifC24MultiplyAndDivide2},
-	{"protocols_webrtc_multiplyAndDivide2", webrtc.VerifC24MultiplyAndDivide2},
-	{"recorder_multiplyAndDivide", recorder.VerifC24MultiplyAndDivide},
-	{"recorder_multiplyAndDivide2", recorder.VerifC24MultiplyAndDivide2},
-	{"stream_multiplyAndDivide", stream.VerifC24MultiplyAndDivide},
-	{"stream_multiplyAndDivide2", stream.VerifC24MultiplyAndDivide2},
+var c24Names3 = []string{
+	"ntpestimator_multiplyAndDivide", "protocols_hls_multiplyAndDivide", "protocols_mpegts_multiplyAndDivide",
+	"protocols_rtmp_multiplyAndDivide", "protocols_rtmp_multiplyAndDivide2", "protocols_webrtc_multiplyAndDivide2",
+	"recorder_multiplyAndDivide", "recorder_multiplyAndDivide2", "stream_multiplyAndDivide", "stream_multiplyAndDivide2",
 }
 
-var c24Copies2 = []c24Copy2{
-	{"playback_durationGoToMp4", "durationGoToMp4", true, false, func(x, r int64) int64 { return playback.VerifC24DurationGoToMp4(x, uint32(r)) }},
-	{"playback_durationMp4ToGo", "durationMp4ToGo", true, true, func(x, r int64) int64 { return playback.VerifC24DurationMp4ToGo(x, uint32(r)) }},
-	{"protocols_rtmp_durationToTimestamp", "durationToTimestamp", false, false, func(x, r int64) int64 { return rtmp.VerifC24DurationToTimestamp(x, int(r)) }},
-	{"protocols_rtmp_timestampToDuration", "timestampToDuration", false, true, func(x, r int64) int64 { return rtmp.VerifC24TimestampToDuration(x, int(r)) }},
-	{"protocols_webrtc_timestampToDuration", "timestampToDuration", false, true, func(x, r int64) int64 { return webrtc.VerifC24TimestampToDuration(x, int(r)) }},
-	{"recorder_timestampToDuration", "timestampToDuration", false, true, func(x, r int64) int64 { return recorder.VerifC24TimestampToDuration(x, int(r)) }},
+var c24Meta2 = []c24Copy2{
+	{"playback_durationGoToMp4", "durationGoToMp4", true, false, nil},
+	{"playback_durationMp4ToGo", "durationMp4ToGo", true, true, nil},
+	{"protocols_rtmp_durationToTimestamp", "durationToTimestamp", false, false, nil},
+	{"protocols_rtmp_timestampToDuration", "timestampToDuration", false, true, nil},
+	{"protocols_webrtc_timestampToDuration", "timestampToDuration", false, true, nil},
+	{"recorder_timestampToDuration", "timestampToDuration", false, true, nil},
+}
+
+// the copies that are present in this build (a shim whose helper vanished from the source is dropped
+// from the overlay by ./check; the tie is then reported broken but the search goes on with the rest)
+var (
+	c24Copies3 []c24Copy3
+	c24Copies2 []c24Copy2
+)
+
+func init() {
+	for _, n := range c24Names3 {
+		if f, ok := verifutil.Funcs[n].(func(v, m, d int64) int64); ok {
+			c24Copies3 = append(c24Copies3, c24Copy3{n, f})
+		}
+	}
+	for _, c := range c24Meta2 {
+		if f, ok := verifutil.Funcs[c.name].(func(x, r int64) int64); ok {
+			c.f = f
+			c24Copies2 = append(c24Copies2, c)
+		}
+	}
 }
 
 const c24Ns = 1000000000
